@@ -540,6 +540,55 @@ func RunTransfer(env *Env, plan *TransferPlan) {
 		}
 	}
 
+	// C12 policy clause against plaintext-only scripted peers: a session that forces encryption
+	// must never put a BitTorrent handshake on the wire in the clear
+	type encTap struct{ first [2][]byte }
+	var encMu sync.Mutex
+	encTaps := map[*simnet.Pair]*encTap{}
+	if sut.Cfg.ForceOutgoingEncryption || sut.Cfg.ForceIncomingEncryption {
+		env.Net.OnConnect = func(p *simnet.Pair) {
+			if p.HostA != sutHost && p.HostB != sutHost {
+				return
+			}
+			et := &encTap{}
+			encMu.Lock()
+			encTaps[p] = et
+			encMu.Unlock()
+			p.Tap = func(dir int, b []byte) {
+				encMu.Lock()
+				if len(et.first[dir]) < 20 {
+					et.first[dir] = append(et.first[dir], b[:min(len(b), 20-len(et.first[dir]))]...)
+				}
+				f0, f1 := et.first[0], et.first[1]
+				encMu.Unlock()
+				sutDir := 0
+				if p.HostB == sutHost {
+					sutDir = 1
+				}
+				if dir != sutDir {
+					return
+				}
+				mine := f0
+				if sutDir == 1 {
+					mine = f1
+				}
+				if len(mine) >= 20 && string(mine[:20]) == btProto {
+					other := p.HostB
+					if sutDir == 1 {
+						other = p.HostA
+					}
+					if other != nil && (other.Role == "peer" || other.Role == "leecher") {
+						if sutDir == 0 && sut.Cfg.ForceOutgoingEncryption {
+							simrt.Violate("C12", "policy.forced_out_plaintext", "the SUT forces outgoing encryption but wrote a plaintext BitTorrent handshake on a connection it opened to %s", other.Name)
+						}
+						if sutDir == 1 && sut.Cfg.ForceIncomingEncryption {
+							simrt.Violate("C12", "policy.forced_in_answered_plaintext", "the SUT forces incoming encryption but answered %s's plaintext handshake with its own", other.Name)
+						}
+					}
+				}
+			}
+		}
+	}
 	var apiClients []*apiClient
 	if plan.API != nil {
 		apiClients = w.startAPIClients()
@@ -664,7 +713,7 @@ func RunTransfer(env *Env, plan *TransferPlan) {
 	if complete {
 		w.checkComplete("final")
 	}
-	env.NonTriv = w.writesBegun > 0 || plan.PreSeeded
+	env.NonTriv = w.writesBegun > 0 || plan.PreSeeded || len(encTaps) > 0
 	if limMon != nil {
 		limMon.finish()
 	}
